@@ -14,6 +14,7 @@ from __future__ import annotations
 import ast
 
 from .common import *  # noqa: F401,F403
+from . import defuse as DU
 from .trace import *  # noqa: F401,F403
 
 CFG = "pyxel/configuration/configuration.py"
@@ -491,12 +492,16 @@ def single_entry(u: Unit):
                 if not isinstance(n, ast.Call):
                     continue
                 f = n.func
+                if isinstance(f, ast.Name) and f.id not in types:        # `func = self.func; func(detector, ...)`
+                    f = DU.resolve(fn, f)
                 if isinstance(f, ast.Attribute) and f.attr == "func" and ast.unparse(f) != "self.fitness_func":
                     sites["func_call"].append(f"{mi.relpath}:{n.lineno}")
                 if isinstance(f, ast.Name) and types.get(f.id) == "ModelFunction":
                     sites["model_call"].append(f"{mi.relpath}:{n.lineno}")
                 if isinstance(f, ast.Attribute) and f.attr == "run" and isinstance(f.value, ast.Name) and types.get(f.value.id) == "ModelGroup":
                     sites["group_run"].append(f"{mi.relpath}:{n.lineno}")
-    u.static("modes.single_entry[user function]", all(s.startswith(MF) for s in sites["func_call"]) and len(sites["func_call"]) >= 1, "", f"calls of <x>.func(...): {sites['func_call']}")
-    u.static("modes.single_entry[model object]", all(s.startswith(MG) for s in sites["model_call"]) and len(sites["model_call"]) >= 1, "", f"calls of model(...): {sites['model_call']}")
-    u.static("modes.single_entry[group run]", all(s.startswith(PR) for s in sites["group_run"]) and len(sites["group_run"]) >= 1, "", f"calls of <group>.run(...): {sites['group_run']}")
+    for label, key, home, what in (("user function", "func_call", MF, "<x>.func(...)"), ("model object", "model_call", MG, "a ModelFunction object"),
+                                   ("group run", "group_run", PR, "<ModelGroup>.run(...)")):
+        u.static(f"modes.single_entry[{label}]", all(s.startswith(home) for s in sites[key]), "", f"calls of {what}: {sites[key]}")
+        if not sites[key]:      # the call-site pattern recognises nothing at all: the obligation above would be vacuous
+            u.undecide(f"modes.single_entry[{label}].cover", "", f"no call of {what} recognised anywhere (vacuity guard)")
